@@ -21,6 +21,9 @@ pub struct Cfg {
     pub extra_strs: &'static [&'static str],
     /// maximum number of string pieces
     pub str_pieces: usize,
+    /// only numbers of small magnitude (for checks in which a generated program may
+    /// multiply a string or build a range with them: memory exhaustion is out of scope)
+    pub small_nums: bool,
 }
 
 impl Default for Cfg {
@@ -38,6 +41,7 @@ impl Default for Cfg {
             nonstring_keys: true,
             extra_strs: &[],
             str_pieces: 3,
+            small_nums: false,
         }
     }
 }
@@ -130,6 +134,9 @@ pub const INVALID_PIECES: &[&[u8]] =
     &[b"\xff", b"\x80", b"\xe2\x82", b"\xc0\x80", b"\xed\xa0\x80", b"\xf0\x9f", b"\xfe", b"\xc3"];
 
 pub fn gen_int(src: &mut Src, cfg: &Cfg) -> MVal {
+    if cfg.small_nums {
+        return MVal::Int(BigInt::from(src.range(-3, 8)), cfg.bigint && src.chance(32));
+    }
     match src.weighted(&[6, 3, 2]) {
         0 => MVal::Int(BigInt::from(src.range(-3, 8)), cfg.bigint && src.chance(32)),
         1 => {
@@ -160,6 +167,9 @@ pub fn gen_int(src: &mut Src, cfg: &Cfg) -> MVal {
 }
 
 pub fn gen_float(src: &mut Src, cfg: &Cfg) -> MVal {
+    if cfg.small_nums {
+        return MVal::Float(*src.pick(&[0.0, -0.0, 1.0, -1.0, 0.5, -0.5, 1.5, 2.5, 0.1, 3.0]));
+    }
     match src.weighted(&[6, 1, 1, 2]) {
         0 => MVal::Float(*src.pick(FLOAT_POOL)),
         1 if cfg.inf => MVal::Float(if src.bool() { f64::INFINITY } else { f64::NEG_INFINITY }),
@@ -179,6 +189,7 @@ pub fn gen_num(src: &mut Src, cfg: &Cfg) -> MVal {
     match src.weighted(&[6, if cfg.float { 3 } else { 0 }, if cfg.dec { 2 } else { 0 }]) {
         0 => gen_int(src, cfg),
         1 => gen_float(src, cfg),
+        _ if cfg.small_nums => MVal::Dec(src.pick(&["1.0", "1.10", "1e0", "0.0", "-0.0", "1E+1", "100e-2", "0.1", "1.5", "2.50"]).to_string()),
         _ => MVal::Dec(src.pick(DEC_POOL).to_string()),
     }
 }
